@@ -70,3 +70,170 @@ Proof.
   - replace ((a + era * 400) / 400) with era by lia.
     replace ((a + era * 400) mod 400) with a by lia. lia.
 Qed.
+
+(* ---------- digits ---------- *)
+Lemma num2_dig n : 0 <= n <= 99 -> num2 (48 + n / 10) (48 + n mod 10) = n.
+Proof. intros H. unfold num2. lia. Qed.
+
+Lemma num4_dig n : 0 <= n <= 9999 ->
+  num4 (48 + n / 1000) (48 + (n / 100) mod 10) (48 + (n / 10) mod 10) (48 + n mod 10) = n.
+Proof. intros H. unfold num4. lia. Qed.
+
+Lemma dig2_digits n : 0 <= n <= 99 -> forallb is_digit (dig2 n) = true.
+Proof. intros H. unfold dig2, is_digit. cbn [forallb]. lia. Qed.
+
+Lemma dig4_digits n : 0 <= n <= 9999 -> forallb is_digit (dig4 n) = true.
+Proof. intros H. unfold dig4, is_digit. cbn [forallb]. lia. Qed.
+
+Lemma dec_time_fields y m d h n s :
+  0 <= y <= 9999 -> 0 <= m <= 99 -> 0 <= d <= 99 -> 0 <= h <= 99 -> 0 <= n <= 99 -> 0 <= s <= 99 ->
+  dec_time (dig4 y ++ dig2 m ++ dig2 d ++ dig2 h ++ dig2 n ++ dig2 s ++ [90])
+  = if date_ok y m d h n s then Some (time_of_fields y m d h n s) else None.
+Proof.
+  intros Hy Hm Hd Hh Hn Hs.
+  pose proof (dig4_digits y Hy) as Dy. pose proof (dig2_digits m Hm) as Dm.
+  pose proof (dig2_digits d Hd) as Dd. pose proof (dig2_digits h Hh) as Dh.
+  pose proof (dig2_digits n Hn) as Dn. pose proof (dig2_digits s Hs) as Ds.
+  unfold dig4, dig2 in *. cbn [app dec_time]. cbn [forallb] in *.
+  split_andb.
+  repeat match goal with H : is_digit _ = true |- _ => rewrite H; clear H end.
+  cbn [andb]. rewrite Z.eqb_refl.
+  rewrite num4_dig, !num2_dig by assumption. reflexivity.
+Qed.
+
+Theorem dec_time_enc_time secs : time_ok secs = true -> dec_time (enc_time secs) = Some secs.
+Proof.
+  unfold time_ok, time_min, time_max. intros H. unfold enc_time.
+  destruct (civil_of_days (secs / 86400)) as [[y m] d] eqn:E.
+  apply civil_of_days_spec in E. destruct E as (Hm & Hd & Hdays & Hy).
+  specialize (Hy ltac:(lia)). pose proof (days_in_month_range y m).
+  rewrite dec_time_fields by lia.
+  replace (date_ok y m d (secs mod 86400 / 3600) (secs mod 86400 / 60 mod 60) (secs mod 86400 mod 60))
+    with true by (unfold date_ok; lia).
+  unfold time_of_fields. rewrite Hdays. f_equal. lia.
+Qed.
+
+Lemma enc_time_length secs : length (enc_time secs) = 15%nat.
+Proof. unfold enc_time. destruct (civil_of_days (secs / 86400)) as [[y m] d]. reflexivity. Qed.
+
+Lemma enc_time_wf secs : time_ok secs = true -> wf_bytes (enc_time secs).
+Proof.
+  unfold time_ok, time_min, time_max. intros H. unfold enc_time.
+  destruct (civil_of_days (secs / 86400)) as [[y m] d] eqn:E.
+  apply civil_of_days_spec in E. destruct E as (Hm & Hd & Hdays & Hy).
+  specialize (Hy ltac:(lia)). pose proof (days_in_month_range y m).
+  unfold dig4, dig2. cbn [app]. repeat (apply wf_bytes_cons; split; [lia|]). constructor.
+Qed.
+
+Example enc_time_epoch : enc_time 0 = [49;57;55;48;48;49;48;49;48;48;48;48;48;48;90].        (* 19700101000000Z *)
+Proof. vm_compute. reflexivity. Qed.
+Example enc_time_2010 : enc_time 1262304000 = [50;48;49;48;48;49;48;49;48;48;48;48;48;48;90]. (* 20100101000000Z *)
+Proof. vm_compute. reflexivity. Qed.
+Example enc_time_leap : enc_time 951782400 = [50;48;48;48;48;50;50;57;48;48;48;48;48;48;90].  (* 20000229000000Z *)
+Proof. vm_compute. reflexivity. Qed.
+Example enc_time_min : enc_time time_min = [48;48;48;49;48;49;48;49;48;48;48;48;48;48;90].    (* 00010101000000Z *)
+Proof. vm_compute. reflexivity. Qed.
+Example enc_time_max : enc_time time_max = [57;57;57;57;49;50;51;49;50;51;53;57;53;57;90].    (* 99991231235959Z *)
+Proof. vm_compute. reflexivity. Qed.
+Example dec_time_rejects_feb30 : dec_time [50;48;48;48;48;50;51;48;48;48;48;48;48;48;90] = None.
+Proof. vm_compute. reflexivity. Qed.
+Example dec_time_rejects_feb29_1900 : dec_time [49;57;48;48;48;50;50;57;48;48;48;48;48;48;90] = None.
+Proof. vm_compute. reflexivity. Qed.
+
+(* ---------- exhaustive check 2: every valid date of an era ---------- *)
+Definition ymd_check (yoe m d : Z) : bool :=
+  let a := if m <=? 2 then yoe + 1 else yoe in
+  if d <=? days_in_month a m then
+    let doe := doe_of_civil yoe m d in
+    (0 <=? doe) && (doe <? 146097)
+    && (let '(a', m', d') := civil_of_doe doe in (a' =? a) && (m' =? m) && (d' =? d))
+    && ((a <? 1) || (306 <=? doe)) && ((399 <? a) || (doe <=? 146036))
+  else true.
+
+Lemma ymd_check_all :
+  all_from (fun yoe => all_from (fun m => all_from (fun d => ymd_check yoe m d) 31 1) 12 1) 400 0 = true.
+Proof. vm_compute. reflexivity. Qed.
+
+Lemma ymd_check_ok yoe m d : 0 <= yoe < 400 -> 1 <= m <= 12 -> 1 <= d <= 31 -> ymd_check yoe m d = true.
+Proof.
+  intros Hy Hm Hd.
+  pose proof (all_from_spec _ _ _ ymd_check_all yoe ltac:(lia)) as H1. cbv beta in H1.
+  pose proof (all_from_spec _ _ _ H1 m ltac:(lia)) as H2. cbv beta in H2.
+  exact (all_from_spec _ _ _ H2 d ltac:(lia)).
+Qed.
+
+Lemma days_of_civil_spec y m d : 1 <= m <= 12 -> 1 <= d <= days_in_month y m ->
+  civil_of_days (days_of_civil y m d) = (y, m, d)
+  /\ (1 <= y <= 9999 -> -719162 <= days_of_civil y m d <= 2932896).
+Proof.
+  intros Hm Hd. pose proof (days_in_month_range y m) as Hr.
+  unfold days_of_civil, civil_of_days.
+  set (y' := if m <=? 2 then y - 1 else y).
+  assert (Hy' : y' = 400 * (y' / 400) + y' mod 400) by lia.
+  assert (Hyoe : 0 <= y' mod 400 < 400) by lia.
+  set (era := y' / 400) in *. set (yoe := y' mod 400) in *.
+  pose proof (ymd_check_ok yoe m d Hyoe Hm ltac:(lia)) as C. unfold ymd_check in C.
+  assert (Ha : y = (if m <=? 2 then yoe + 1 else yoe) + era * 400).
+  { unfold y' in Hy'. destruct (m <=? 2); lia. }
+  set (a := if m <=? 2 then yoe + 1 else yoe) in *.
+  rewrite Ha in Hd. rewrite days_in_month_period in Hd.
+  replace (d <=? days_in_month a m) with true in C by lia.
+  set (doe := doe_of_civil yoe m d) in *.
+  destruct (civil_of_doe doe) as [[a' m'] d'] eqn:E. split_andb.
+  replace (era * 146097 + doe - 719468 + 719468) with (era * 146097 + doe) by lia.
+  replace ((era * 146097 + doe) / 146097) with era by lia.
+  replace ((era * 146097 + doe) mod 146097) with doe by lia.
+  rewrite E. split; [f_equal; [f_equal|]; lia | lia].
+Qed.
+
+(* ---------- dec_time accepts only what enc_time writes ---------- *)
+Lemma dig2_num2 a b : is_digit a = true -> is_digit b = true -> dig2 (num2 a b) = [a; b].
+Proof. unfold is_digit, dig2, num2. intros Ha Hb. f_equal; [|f_equal]; lia. Qed.
+
+Lemma dig4_num4 a b c d : is_digit a = true -> is_digit b = true -> is_digit c = true -> is_digit d = true ->
+  dig4 (num4 a b c d) = [a; b; c; d].
+Proof. unfold is_digit, dig4, num4. intros Ha Hb Hc Hd. f_equal; [|f_equal; [|f_equal; [|f_equal]]]; lia. Qed.
+
+Lemma num2_range a b : is_digit a = true -> is_digit b = true -> 0 <= num2 a b <= 99.
+Proof. unfold is_digit, num2. lia. Qed.
+
+Lemma num4_range a b c d : is_digit a = true -> is_digit b = true -> is_digit c = true -> is_digit d = true ->
+  0 <= num4 a b c d <= 9999.
+Proof. unfold is_digit, num4. lia. Qed.
+
+Theorem dec_time_canon b secs : dec_time b = Some secs -> enc_time secs = b /\ time_ok secs = true.
+Proof.
+  destruct b as [|y1 [|y2 [|y3 [|y4 [|m1 [|m2 [|d1 [|d2 [|h1 [|h2 [|n1 [|n2 [|s1 [|s2 [|zz [|? ?]]]]]]]]]]]]]]]];
+    cbn [dec_time]; try discriminate.
+  destruct (forallb is_digit [y1; y2; y3; y4; m1; m2; d1; d2; h1; h2; n1; n2; s1; s2] && (zz =? 90)) eqn:D;
+    [|discriminate].
+  cbv zeta. cbn [forallb] in D. split_andb.
+  pose proof (num4_range y1 y2 y3 y4 ltac:(assumption) ltac:(assumption) ltac:(assumption) ltac:(assumption)) as Ry.
+  pose proof (num2_range m1 m2 ltac:(assumption) ltac:(assumption)) as Rm.
+  pose proof (num2_range d1 d2 ltac:(assumption) ltac:(assumption)) as Rd.
+  pose proof (num2_range h1 h2 ltac:(assumption) ltac:(assumption)) as Rh.
+  pose proof (num2_range n1 n2 ltac:(assumption) ltac:(assumption)) as Rn.
+  pose proof (num2_range s1 s2 ltac:(assumption) ltac:(assumption)) as Rs.
+  pose proof (dig4_num4 y1 y2 y3 y4 ltac:(assumption) ltac:(assumption) ltac:(assumption) ltac:(assumption)) as Ey.
+  pose proof (dig2_num2 m1 m2 ltac:(assumption) ltac:(assumption)) as Em.
+  pose proof (dig2_num2 d1 d2 ltac:(assumption) ltac:(assumption)) as Ed.
+  pose proof (dig2_num2 h1 h2 ltac:(assumption) ltac:(assumption)) as Eh.
+  pose proof (dig2_num2 n1 n2 ltac:(assumption) ltac:(assumption)) as En.
+  pose proof (dig2_num2 s1 s2 ltac:(assumption) ltac:(assumption)) as Es.
+  set (y := num4 y1 y2 y3 y4) in *. set (m := num2 m1 m2) in *. set (d := num2 d1 d2) in *.
+  set (h := num2 h1 h2) in *. set (n := num2 n1 n2) in *. set (s := num2 s1 s2) in *.
+  destruct (date_ok y m d h n s) eqn:Ok; [|discriminate].
+  intros E. assert (Es' : time_of_fields y m d h n s = secs) by congruence. clear E.
+  unfold date_ok in Ok. split_andb.
+  destruct (days_of_civil_spec y m d ltac:(lia) ltac:(lia)) as [Hc Hrange].
+  specialize (Hrange ltac:(lia)).
+  unfold time_of_fields in Es'. set (D := days_of_civil y m d) in *.
+  split.
+  - unfold enc_time.
+    replace (secs / 86400) with D by lia. rewrite Hc.
+    replace (secs mod 86400 / 3600) with h by lia.
+    replace (secs mod 86400 / 60 mod 60) with n by lia.
+    replace (secs mod 86400 mod 60) with s by lia.
+    rewrite Ey, Em, Ed, Eh, En, Es. cbn [app]. repeat f_equal. lia.
+  - unfold time_ok, time_min, time_max. lia.
+Qed.
